@@ -118,6 +118,7 @@ Section Model.
     let (s, failed) := model_set in
     onat_eqb failed (c_add c) &&
     match c_mapadd c with None => true | Some b => Bool.eqb b (match failed with Some _ => true | None => false end) end &&
+    forallb (fun eb => Bool.eqb (snd eb) (match failed with Some _ => true | None => false end)) (c_bulk c) &&
     match failed with
     | Some _ => true
     | None =>
